@@ -130,6 +130,10 @@ def check(model, rep):
         post_bad = [ev for ev in rp.post if ev.kind in ('time',) or ev.writes]
         _once(rep, seen, ('post', not post_bad), not post_bad, 'C11.once', 'Solver.run:after-loop',
               f'events after the stepping loop modify the history: {[e.text for e in post_bad][:3]}', loc=loc)
+    for o, evs in rm.early_exits:
+        _once(rep, seen, ('early',), False, 'C11.once', 'Solver.run:early-exit',
+              'a path through run() completes without entering the stepping loop (no instants up to T are recorded)',
+              loc=f'{mod}:{o.loc or rm.member.node.lineno}')
     rep.require('C11.grid', 2)
     rep.require('C11.once', 2)
     rep.analysed.update({'run_paths': len(rm.paths), 'time_params': params})
